@@ -76,7 +76,7 @@ func genDecorSpec(t *rapid.T, prof *Profile, sync bool, side int) engine.DecorSp
 	if prof.Wraps && rapid.Bool().Draw(t, "wrapped") {
 		nw := rapid.IntRange(1, 3).Draw(t, "nwrap")
 		for i := 0; i < nw; i++ {
-			d.Wrap = append(d.Wrap, rapid.SampledFrom([]string{"oncomplete", "onabort", "meta", "oncompletemeta", "onabortmeta", "ocoa", "ocmoam"}).Draw(t, "wrap"))
+			d.Wrap = append(d.Wrap, rapid.SampledFrom([]string{"oncomplete", "onabort", "meta", "oncompletemeta", "onabortmeta", "ocoa", "ocmoam", "oncomplete-e", "onabort-e", "ocoa-e"}).Draw(t, "wrap"))
 		}
 	}
 	d.Listener = pct(t, prof.Listeners, "listener")
@@ -149,6 +149,13 @@ func genBarSpec(t *rapid.T, prof *Profile, idx int, succOf map[int]bool) engine.
 
 // genScenario draws a sequential ("clocked") scenario.
 func genScenario(t *rapid.T, prof *Profile) *engine.Scenario {
+	sc := genSetup(t, prof)
+	sc.Steps = genSteps(t, prof, sc)
+	return sc
+}
+
+// genSetup draws the container configuration and the bar specs.
+func genSetup(t *rapid.T, prof *Profile) *engine.Scenario {
 	sc := &engine.Scenario{}
 	nb := rapid.IntRange(max1(prof.MinBars), prof.MaxBars).Draw(t, "nbars")
 	sc.Cfg.Refresh = rapid.SampledFrom(prof.Refresh).Draw(t, "refresh")
@@ -203,7 +210,6 @@ func genScenario(t *rapid.T, prof *Profile) *engine.Scenario {
 		eps = []string{"complete", "abort", "mixed"}
 	}
 	sc.Epilogue = rapid.SampledFrom(eps).Draw(t, "epilogue")
-	sc.Steps = genSteps(t, prof, sc)
 	return sc
 }
 
